@@ -256,7 +256,7 @@ def members(tier):
 # chain: n long bars (i*gap, i*gap + H) against the same bars moved by (dx, dy): every point is matched to
 # its own copy (all other pairings and the diagonal are far more expensive), so d_B = max(|dx|,|dy|) and
 # W = n*sqrt(dx^2+dy^2).  Long alternating paths: the matching routine needs deep searches here.
-CHAINS = {"quick": [(500, 1.0, 1000.0, 0.6, 0.6), (400, 1.0, 50.0, 0.25, -0.4), (650, 0.5, 2000.0, 0.2, 0.1)],
+CHAINS = {"quick": [(500, 1.0, 1000.0, 0.6, 0.6), (400, 1.0, 50.0, 0.25, -0.4), (560, 0.5, 2000.0, 0.2, 0.1)],
           "thorough": [(500, 1.0, 1000.0, 0.6, 0.6), (400, 1.0, 50.0, 0.25, -0.4), (650, 0.5, 2000.0, 0.2, 0.1), (900, 1.0, 1000.0, 0.6, 0.6), (1200, 2.0, 5000.0, 0.9, 0.3)]}
 
 
